@@ -620,6 +620,35 @@ VERIF_TARGET(c21_indexes, init, 48, 700,
             sim.SyncSignals();
             chain_moved(true);
             H.NoFatal("invalidate/reconsider");
+        } else if (kind == 9) {
+            // index stopped at a committed best block A -> tip(s) invalidated for good -> replacement branch of EQUAL OR LOWER height -> index restarted:
+            // on restart the index's persisted best block is a stale block at least as high as the active tip; Sync() must rewind and follow the active branch
+            int k = int(s.index(NKIND));
+            Slot& sl = H.slot[k];
+            if (sim.TipHeight() <= 103) continue;
+            if (!sl.obj) H.Create(k);
+            if (!sl.synced) H.SyncNow(k);
+            H.Destroy(k); // clean shutdown: chainstate flush -> ChainStateFlushed -> locator committed at the tip
+            unsigned depth = s.range<unsigned>(1, 2);
+            uint256 inv = sim.ledger.AncestorAt(sim.TipHash(), sim.TipHeight() - int(depth) + 1);
+            CBlockIndex* pi;
+            { LOCK(cs_main); pi = sim.chainman().m_blockman.LookupBlockIndex(inv); }
+            BlockValidationState state;
+            sim.chainstate().InvalidateBlock(state, pi);
+            sim.SyncSignals();
+            chain_moved(true);
+            // heads on the invalidated branch can no longer be extended
+            for (auto& h : heads) if (sim.ledger.IsAncestor(inv, h)) h = sim.TipHash();
+            unsigned repl = s.range<unsigned>(1, depth); // replacement no higher than the old tip
+            for (unsigned i = 0; i < repl; ++i) build_block(sim.TipHash(), 5000 + op * 8 + i); // own tag space: must not rebuild a block identical to an invalidated one
+            H.NoFatal("stale-restart");
+            H.Create(k);
+            if (!H.slot[k].synced) H.SyncNow(k);
+            H.slot[k].reorg_while_behind = true;
+            st.cls("restart"); st.cls("restart-on-stale-best-not-below-tip");
+            st.note("stale-restart ", KIND_NAMES[k], " depth=", depth, " repl=", repl);
+            st.mix(uint64_t(0x900 + k * 4 + depth * 2 + repl));
+            if (s.boolean()) { H.CheckIndexes("after-stale-restart"); checks++; }
         } else if (kind == 7) {
             LOCK(cs_main);
             sim.chainstate().ForceFlushStateToDisk(s.boolean());
